@@ -6,6 +6,13 @@ Open Scope Z_scope.
 
 Definition all (p : Z -> bool) (s : ustring) : bool := forallb p s.
 
+(** a well-formed REGEX_INNER: no unescaped slash, no dangling backslash *)
+Fixpoint regex_ok (esc : bool) (s : ustring) : bool :=
+  match s with
+  | [] => negb esc
+  | c :: r => if esc then regex_ok false r else if c =? 47 then false else if c =? 92 then regex_ok true r else regex_ok false r
+  end.
+
 Definition wf_tok (t : tok) : bool :=
   match t with
   | THdr s | TVar s | TRef s => nonempty s && all idc s
@@ -14,6 +21,7 @@ Definition wf_tok (t : tok) : bool :=
   | TStr s => all (fun c => negb (c =? 34)) s
   | TComment s => all (fun c => negb (c =? 126)) s
   | TNum _ ip fp => nonempty ip && all is_digit ip && match fp with Some f => nonempty f && all is_digit f | None => true end
+  | TRegex s => regex_ok false s
   | _ => true
   end.
 
@@ -93,10 +101,19 @@ Proof.
   unfold is_digit. intros H. rewrite !andb_true_iff, !Z.leb_le in H. repeat split; apply Z.eqb_neq; lia.
 Qed.
 
+Lemma lex_regex_ok : forall s esc rest, regex_ok esc s = true -> lex_regex esc (s ++ 47 :: rest) = Some (s, rest).
+Proof.
+  induction s as [|c r IH]; intros esc rest H.
+  - cbn in H. destruct esc; [discriminate|]. reflexivity.
+  - cbn [app lex_regex]. cbn [regex_ok] in H. destruct esc.
+    + rewrite (IH false rest H). reflexivity.
+    + destruct (c =? 47); [discriminate|]. destruct (c =? 92); rewrite (IH _ rest H); reflexivity.
+Qed.
+
 (** one token, followed by anything that stops it, is read back as that token *)
 Theorem lex1_ok t rest : wf_tok t = true -> stops t rest = true -> lex1 (render_tok t ++ rest) = Some (t, rest).
 Proof.
-  intros Hw Hs. destruct t as [| | | | | | | |s|s|s|s|s|s|neg ip fp|s]; try reflexivity.
+  intros Hw Hs. destruct t as [| | | | | | | |s|s|s|s|s|s|neg ip fp|s|s]; try reflexivity.
   - (* = *) cbn. destruct rest as [|c r]; [reflexivity|]. cbn in Hs. apply negb_true_iff in Hs. rewrite Hs. reflexivity.
   - (* #name *) cbn [wf_tok] in Hw. apply andb_prop in Hw. destruct Hw as [Hn Ha]. cbn [render_tok stops app] in *.
     destruct s as [|d s']; [discriminate|]. unfold lex1. cbn [app].
@@ -119,6 +136,7 @@ Proof.
     + unfold lex1. cbn. rewrite H13. exact Hn.
     + unfold lex1. rewrite H1,H2,H3,H4,H5,H6,H7,H8,H9,H10,H11,H12,Hd0. exact Hn.
   - (* comment *) cbn [wf_tok] in Hw. cbn [render_tok app]. unfold lex1. cbn. rewrite <- app_assoc. cbn [app]. apply lex_delimited_ok. exact Hw.
+  - (* regex *) cbn [wf_tok] in Hw. cbn [render_tok app]. unfold lex1. cbn. rewrite <- app_assoc. cbn [app]. rewrite (lex_regex_ok s false rest Hw). reflexivity.
 Qed.
 
 (** * streams of tokens with layout *)
@@ -164,7 +182,7 @@ Proof. induction s as [|c s IH]; intros H; [reflexivity|]. cbn in H |- *. apply 
 
 Lemma tok_first t : wf_tok t = true -> exists c r, render_tok t = c :: r /\ wsc c = false.
 Proof.
-  destruct t as [| | | | | | | |s|s|s|s|s|s|neg ip fp|s]; intros H; try (eexists; eexists; split; [reflexivity|reflexivity]).
+  destruct t as [| | | | | | | |s|s|s|s|s|s|neg ip fp|s|s]; intros H; try (eexists; eexists; split; [reflexivity|reflexivity]).
   - cbn in H. destruct s as [|c s']; [discriminate|]. apply andb_prop in H. destruct H as [Hc _].
     destruct (letter_dispatch c Hc) as (_&_&_&_&_&_&_&_&_&_&_&_&_&Hi). exists c, s'. split; [reflexivity|]. exact (proj2 (idc_not c Hi)).
   - cbn in H. apply andb_prop in H. destruct H as [H _]. apply andb_prop in H. destruct H as [Hn Hd].
